@@ -77,6 +77,9 @@ class Gen:
             else:
                 if depth >= self.maxdepth and not c["req"]:
                     continue
+                if depth >= self.maxdepth + 8:
+                    continue      # a required section of a type that (transitively) requires itself: no finite text conforms
+
                 n = (1 if (c["req"] or rng.random() < 0.6) else 0) if c["kind"] == "section" else rng.choice([0, 1, 2])
                 if c["req"]:
                     n = max(n, 1)
